@@ -170,6 +170,68 @@ Inv_P_C08 == phase = "done" => P_C08(Case)
 Inv_P_C09 == (phase = "done" /\ cfg.deco = "rich") => P_C09(Case)
 Inv_P_C14 == (phase = "done" /\ cfg.deco = "rich") => P_C14(Case)
 
+(* ---------------- relational properties on the model (C11 / C13 / C15) ---------------- *)
+\* the second (third) run of each relation is the specification's own rendering under the related
+\* configuration / document; the predicates are the ones that judge real executions
+CfgD(c0) == c0 @@ [ds |-> Cf(c0).ds]
+WithOp(c0, op) == [c0 EXCEPT !.ops = Append(@, op)]
+ResOf(m) == [k |-> m.k, lines |-> m.lines, sw |-> [i \in 1..Len(m.lines) |-> SumW(m.lines[i])]]
+RouteOf(c0) == IF c0.deco = "rich" THEN "lines" ELSE "string"
+MRunD(d, c0, width, tag) == [d |-> d, w |-> width, cfg |-> CfgD(c0), route |-> RouteOf(c0), tag |-> tag,
+                             res |-> ResOf(RenderDoc(IF d = 1 THEN doc ELSE <<>>, c0, width))]
+MRun(c0, width, tag) == MRunD(1, c0, width, tag)
+BaseRun(tag) == [d |-> 1, w |-> w, cfg |-> CfgD(cfg), route |-> RouteOf(cfg), tag |-> tag, res |-> ResOf(result)]
+RelCase(runs, meta) == [id |-> "mcrel", doms |-> <<doc>>, meta |-> meta, runs |-> runs]
+Inv_Rel_C11 == phase = "done" =>
+  P_C11(RelCase(<< MRun(cfg, 0, "zero"), BaseRun("base"), MRun(WithOp(cfg, <<"overflow">>), w, "ovf") >>, [x \in {} |-> 0]))
+\* C13: every collapsible white-space character doubled, spaces turned into newlines (outside <pre>)
+RECURSIVE WsVar(_)
+WsVarSeq(ns) == [i \in 1..Len(ns) |-> WsVar(ns[i])]
+WsVar(n) == IF n.k = "t" THEN [n EXCEPT !.s = Concat([i \in 1..Len(n.s) |-> IF IsWs(n.s[i]) THEN << n.s[i], <<NL, -1>> >> ELSE << n.s[i] >>])]
+            ELSE IF n.k # "e" \/ n.n = "pre" THEN n
+            ELSE [n EXCEPT !.c = WsVarSeq(@)]
+Inv_Rel_C13 == phase = "done" =>
+  LET d2 == WsVarSeq(doc)
+      r2 == [d |-> 2, w |-> w, cfg |-> CfgD(cfg), route |-> RouteOf(cfg), tag |-> "", res |-> ResOf(RenderDoc(d2, cfg, w))] IN
+  P_C13([id |-> "mcrel", doms |-> <<doc, d2>>, meta |-> [x \in {} |-> 0], runs |-> << BaseRun(""), r2 >>])
+\* C15: one option at a time on top of the configuration of the state
+RelOpts == { <<"pad", 0>>, <<"max_wrap", w>>, <<"max_wrap", w + 2>>, <<"max_wrap", 3>>, <<"noborders", 0>>, <<"raw", 0>>,
+             <<"nolinkwrap", 0>>, <<"min_wrap", 1>>, <<"strike", 0>>, <<"footnotes", 0>> }
+OptCase(o) ==
+  LET two == o[1] \in {"strike", "footnotes"}          \* run 1 has the option TRUE, run 2 FALSE
+      c1 == IF two THEN WithOp(cfg, <<o[1], TRUE>>) ELSE cfg
+      c2 == CASE o[1] \in {"max_wrap", "min_wrap"} -> WithOp(cfg, <<o[1], o[2]>>)
+              [] o[1] = "raw" -> WithOp(cfg, <<"raw", TRUE>>)
+              [] two -> WithOp(cfg, <<o[1], FALSE>>)
+              [] OTHER -> WithOp(cfg, <<o[1]>>)
+      r1 == IF two THEN MRun(c1, w, "") ELSE BaseRun("") IN
+  RelCase(<< r1, MRun(c2, w, "") >>, [opt |-> o[1], arg |-> o[2]])
+\* (an option the configuration already sets would be overridden, not added)
+Inv_Rel_C15 == phase = "done" => \A o \in RelOpts : HasOp(cfg, o[1]) \/ LET c == OptCase(o) IN P_C15(c) \/ KF_C15(c) # ""
+
+\* C07: a document that is one list / quote / heading is the prefixes composed with the
+\* specification's renderings of its items at the narrower width (link-free: footnote numbers are global)
+C07Block(n) == n.k = "e" /\ n.n \in {"blockquote", "ul", "ol", "h1", "h2"}
+C07Items(n) == IF n.n \in {"ul", "ol"} THEN [i \in 1..Len(n.c) |-> n.c[i].c] ELSE << n.c >>
+C07Start(n) == IF n.n = "ol" /\ HasAttr(n, "start") THEN ParseInt(n.a.start.c, TRUE, 1) ELSE 1
+C07PW(n) == CASE n.n = "blockquote" -> SumW(cf.ds.quote)
+              [] n.n = "ul" -> SumW(cf.ds.ul)
+              [] n.n = "ol" -> Max2(SumW(OlPrefix(cf, C07Start(n))), SumW(OlPrefix(cf, C07Start(n) + Max2(Len(n.c), 1) - 1)))
+              [] n.n = "h1" -> SumW(cf.ds.hdr[1])
+              [] OTHER -> SumW(cf.ds.hdr[2])
+Inv_Rel_C07 ==
+  (phase = "done" /\ Len(doc) = 1 /\ C07Block(doc[1]) /\ ~HasLinkEl(doc)) =>
+    LET n == doc[1]  its == C07Items(n)  pw == C07PW(n)
+        aux == [i \in 1..Len(its) |-> [d |-> 1 + i, w |-> w - pw, cfg |-> CfgD(cfg), route |-> RouteOf(cfg), tag |-> "",
+                                        res |-> ResOf(RenderDoc(its[i], cfg, w - pw))]] IN
+    w - pw >= 1 => P_C07([id |-> "mcrel", doms |-> <<doc>> \o its, meta |-> [kind |-> n.n, start |-> C07Start(n)],
+                          runs |-> << BaseRun("") >> \o aux])
+
+(* ---------------- termination of the step machine (C01 on the model) ---------------- *)
+\* every rendering that has started finishes: the work list is consumed (weak fairness on the steps)
+LiveSpec == Spec /\ WF_vars(Step) /\ WF_vars(Fin)
+Terminates == (phase = "render") ~> (phase = "done")
+
 (* ---------------- behaviour emission ---------------- *)
 Beh == [id |-> "mcblock", body |-> doc,
         runs |-> << [w |-> w, cfg |-> cfg, route |-> IF cfg.deco = "rich" THEN "lines" ELSE "string", b |-> 1] >>,
